@@ -1165,3 +1165,32 @@ Proof.
   unfold group_candidates in Hm, H1. rewrite map_length in Hm, H1.
   split; [exact Hg|]. exists m. split; [exact Hm|]. cbn zeta. repeat split; assumption.
 Qed.
+
+(** * H. the decidable checks used on observed folds mean what they say *)
+
+Lemma is_perm_seq_spec l n : is_perm_seq l n = true <-> Permutation l (seq 0 n).
+Proof.
+  unfold is_perm_seq. rewrite !andb_true_iff, nodupb_NoDup, Nat.eqb_eq, forallb_forall. split.
+  - intros [[Hn Hl] Hf]. apply NoDup_Permutation_bis; [exact Hn|rewrite seq_length; lia|].
+    intros x Hx. apply in_seq. specialize (Hf x Hx). apply Nat.ltb_lt in Hf. lia.
+  - intros Hp. repeat split.
+    + eapply Permutation_NoDup; [apply Permutation_sym, Hp|apply seq_NoDup].
+    + rewrite (Permutation_length Hp). apply seq_length.
+    + intros x Hx. apply Nat.ltb_lt. apply (Permutation_in x Hp) in Hx. apply in_seq in Hx. lia.
+Qed.
+
+Lemma split_ok_spec labels s :
+  split_ok labels s = true <->
+  (Permutation (fst s ++ snd s) (seq 0 (length labels)) /\
+   forall i j, In i (fst s) -> In j (snd s) -> lab labels i <> lab labels j).
+Proof.
+  unfold split_ok. rewrite andb_true_iff, is_perm_seq_spec, forallb_forall.
+  apply and_iff_compat_l. split.
+  - intros H i j Hi Hj E.
+    assert (Hb : In (lab labels i) (usort (map (lab labels) (fst s)))) by (apply usort_In, in_map, Hi).
+    specialize (H _ Hb). apply negb_true_iff, memb_false in H. apply H.
+    apply usort_In. rewrite E. apply in_map, Hj.
+  - intros H b Hb. apply negb_true_iff, memb_false. intros Hc.
+    apply usort_In, in_map_iff in Hb as [i [<- Hi]]. apply usort_In, in_map_iff in Hc as [j [E Hj]].
+    apply (H i j Hi Hj). symmetry. exact E.
+Qed.
